@@ -32,6 +32,11 @@ def gen_case(rng):
         case["bins"] = rng.choice([[0.0, 1.0, 3.0], [0.0, 3.0], [0.4, 1.4]]) if sel == "pT" else \
             rng.choice([[-2.0, 0.0, 2.0], [-3.0, 3.0], [-0.5, 1.5]])
         case["poi"] = rng.choice([None, None, [211], [211, -211]])
+    if rng.random() < 0.2:
+        e = rng.randrange(nev)
+        i, j = sorted(rng.sample(range(len(evs[e])), 2))
+        evs[e][j] = dict(evs[e][i])
+        case["dup_in_event"] = [[e, i, j]]          # one Particle object at two positions of an event (see c11.mk_events)
     return case
 
 
@@ -66,13 +71,15 @@ def cases(ctx):
 def _events(case, alphas=None):
     evs = c11.mk_events(case)
     if alphas is not None:
-        out = []
+        out, done = [], set()
         for ev, specs, a in zip(evs, case["events"], alphas):
             row = []
             for P, s in zip(ev, specs):
-                pt = float(s["pt"])
-                phi = P.phi() + a
-                P.px, P.py = pt * math.cos(phi), pt * math.sin(phi)
+                if id(P) not in done:                  # an object listed twice (dup_in_event) is rotated once
+                    done.add(id(P))
+                    pt = float(s["pt"])
+                    phi = P.phi() + a
+                    P.px, P.py = pt * math.cos(phi), pt * math.sin(phi)
                 row.append(P)
             out.append(row)
         evs = out
